@@ -190,6 +190,46 @@ class LinCtx:
             return False
         return None
 
+    def prove_hard(self, cond, label="", timeout_s=100):
+        """prove() in a forked child that is killed at the deadline (z3 does not always honour its own time limit on these contexts):
+        True / False / None as prove(); a False verdict is re-derived by the caller through model_for when it needs the model"""
+        import os
+        import signal
+        r_fd, w_fd = os.pipe()
+        pid = os.fork()
+        if pid == 0:
+            try:
+                os.close(r_fd)
+                v = self.prove(cond, label, int(timeout_s * 1000))
+                os.write(w_fd, {True: b"T", False: b"F", None: b"U"}[v])
+            finally:
+                os._exit(0)
+        os.close(w_fd)
+        import select
+        t0 = time.time()
+        out = b""
+        while time.time() - t0 < timeout_s + 5:
+            rl, _, _ = select.select([r_fd], [], [], 0.5)
+            if rl:
+                out = os.read(r_fd, 1)
+                break
+            done, _ = os.waitpid(pid, os.WNOHANG)
+            if done:
+                rl, _, _ = select.select([r_fd], [], [], 0)
+                out = os.read(r_fd, 1) if rl else b""
+                pid = 0
+                break
+        os.close(r_fd)
+        if pid:
+            try:
+                os.kill(pid, signal.SIGKILL)
+            except ProcessLookupError:
+                pass
+            os.waitpid(pid, 0)
+        self.queries += 1
+        self.solver_time += time.time() - t0
+        return {b"T": True, b"F": False}.get(out)
+
     def model_for(self, cond):
         s = self.solver
         s.push()
